@@ -27,7 +27,7 @@ MAPPABLE = ('S1', 'S2', 'S3', 'S4')
 RESCOUNT = ('S5', 'S6') if os.environ.get('C05_RESCOUNT') == '1' else ()
 ALL = LETTERS + ('S5', 'S6')
 SCALES = (0.5, 1.0)
-BOXES = ('rect', 'tric')
+BOXES = ('rect', 'tric', 'hex')
 TOL_FMT = 0.5e-3 + 1e-9          # coordinate format: 3 decimals
 TOL_INV = 0.9e-3                 # a length built from three rounded components
 TOL_BOX = 5e-6
@@ -63,7 +63,12 @@ HIST_EVENTS = ('extr', 'calc', 'add:S1', 'add:S2', 'set:S1', 'set:S2', 'det:S1',
 END_RESID_OFFSET = 76             # residue numbers carried by the end-resolution files
 
 BOX = {'rect': np.array([7.25, 6.5, 8.125]),
-       'tric': np.array([[7.25, 0.0, 0.0], [1.5, 6.5, 0.0], [0.75, 2.125, 8.125]])}
+       'tric': np.array([[7.25, 0.0, 0.0], [1.5, 6.5, 0.0], [0.75, 2.125, 8.125]]),
+       # hexagonal cell (gamma = 120 deg): its only off-diagonal component is NEGATIVE; this class also
+       # carries a title with multi-byte characters (when the default text encoding can hold them)
+       'hex': np.array([[6.0, 0.0, 0.0], [-3.0, 5.19615, 0.0], [0.0, 0.0, 8.125]])}
+import locale
+_UTF = 'utf' in locale.getpreferredencoding(False).lower()
 
 DRAWS = {   # owned np.random.rand(3) answers, one table per phase
     'init': np.array([[0.31, 0.77, 0.52], [0.93, 0.12, 0.64], [0.18, 0.45, 0.86]]),
@@ -116,6 +121,8 @@ class World:
         self.seq = list(seq)
         self.boxkind = box
         self.title = f'mcx C05 {"-".join(seq)} {box} ; t= 12.5'
+        if box == 'hex' and _UTF:
+            self.title = f'L\u00edquido i\u00f3nico {"-".join(seq)} \u2013 25 \u00b0C, \u03b1 nm\u00b3'
         rots = generic_rotations(seed, k=5)
         self.mols = []
         recs = []
@@ -196,7 +203,7 @@ class C05(Check):
                  'exchange-map call on an independently built input molecule')
     level_text = ('every sequence of 1..3 (quick) / 1..5 (thorough) molecules over 6 species (3-atom, 2-residue, '
                   '2-atom and 1-atom references, an unmapped loaded species, solvent), every attachment subset, '
-                  '2 boxes, 2 scales and 3 failure modes are executed on the real code; plus every workflow history of '
+                  '3 boxes (rectangular, triclinic, hexagonal with a negative component and a non-ASCII title), system built by the constructor or step by step in reverse order, 2 scales and 3 failure modes are executed on the real code; plus every workflow history of '
                   'length 5 (quick) / 6 (thorough) over 8 manager events; a coverage statement over that finite space')
     level_note = ('trusted: the text builders and the 30-line reader in this module, numpy; alignment is not run '
                   '(the maps are built from the placed coordinates); velocities and non-default coordinate '
@@ -255,19 +262,22 @@ class C05(Check):
             return self._history(case, R, seed)
         world = World(case['seq'], case['box'], seed)
         if 'mode' in case:
-            subs = [(case['mode'], case['sub'], case['scale'])]
+            subs = [(case['mode'], case['sub'], case['scale'], case.get('load', 'ctor'))]
         else:
-            subs = [('nothing', [], None)]
+            subs = [('nothing', [], None, 'ctor')]
             present = [s for s in MAPPABLE + RESCOUNT if s in world.present]
+            nload = len([s for s in world.present if s != 'W'])
             for sub in subsets(present):
                 for sc in SCALES:
-                    subs.append(('computed', sub, sc))
-                subs.append(('not_computed', sub, None))
+                    subs.append(('computed', sub, sc, 'ctor'))
+                if nload >= 2:
+                    subs.append(('computed', sub, SCALES[0], 'add'))
+                subs.append(('not_computed', sub, None, 'ctor'))
                 if len(sub) >= 2:
-                    subs.append(('partial', sub, SCALES[0]))
+                    subs.append(('partial', sub, SCALES[0], 'ctor'))
         with Scratch() as d:
-            for i, (mode, sub, sc) in enumerate(subs):
-                desc = dict(case, mode=mode, sub=sub, scale=sc)
+            for i, (mode, sub, sc, load) in enumerate(subs):
+                desc = dict(case, mode=mode, sub=sub, scale=sc, load=load)
                 out = os.path.join(d, f'out{i}.gro')
                 self._one(world, desc, out, R, seed)
 
@@ -284,10 +294,16 @@ class C05(Check):
             return t[state['i'] % len(t)].copy()
 
         loaded = [s for s in world.present if s != 'W']
-        cls = f"{mode}/len{len(world.seq)}/{world.boxkind}" + ('/rescount' if any(x in RESCOUNT for x in world.seq) else '')
+        cls = f"{mode}{'/step-by-step' if desc.get('load') == 'add' else ''}/len{len(world.seq)}/{world.boxkind}" + ('/rescount' if any(x in RESCOUNT for x in world.seq) else '')
         with owned_random(script):
-            system = System(MemFile(world.gro, 'system.gro'),
-                            *[MemFile(world.itp(s), s + '.itp') for s in loaded])
+            if desc.get('load') == 'add':
+                # built step by step, species added in reverse order of first appearance
+                system = System(MemFile(world.gro, 'system.gro'))
+                for s in loaded[::-1]:
+                    system.add_ftop(MemFile(world.itp(s), s + '.itp'))
+            else:
+                system = System(MemFile(world.gro, 'system.gro'),
+                                *[MemFile(world.itp(s), s + '.itp') for s in loaded])
             man = Manager(system)
             first = {}
             for m in world.mols:
